@@ -330,3 +330,185 @@ func eqCase(f eqForm, life godi.Lifetime) (fs []Finding) {
 	}
 	return fs
 }
+
+// ---- disposables handed out BY VALUE -------------------------------------------------------
+//
+// Close() error with a value receiver: a numbered handle (`type Handle int`) or a small struct.
+// Such an instance may well equal the zero value of its type (handle 0, an all-empty struct) and
+// is still an instance the container created and must close exactly once.
+
+// EqHandle is a disposable integer handle.
+type EqHandle int
+
+// EqFlusher is a disposable struct whose zero value is a valid instance.
+type EqFlusher struct {
+	Name string
+	N    int
+}
+
+type valWorld struct {
+	mu           sync.Mutex
+	handleMade   map[int]int
+	handleClosed map[int]int
+	flMade       int
+	flClosed     int
+	next         int
+}
+
+var (
+	valMu  sync.Mutex
+	valCur *valWorld
+)
+
+func valGet() *valWorld { valMu.Lock(); defer valMu.Unlock(); return valCur }
+
+func (h EqHandle) Close() error {
+	if w := valGet(); w != nil {
+		w.mu.Lock()
+		w.handleClosed[int(h)]++
+		w.mu.Unlock()
+	}
+	return nil
+}
+
+func (f EqFlusher) Close() error {
+	if w := valGet(); w != nil {
+		w.mu.Lock()
+		w.flClosed++
+		w.mu.Unlock()
+	}
+	return nil
+}
+
+func eqNewHandle() EqHandle {
+	w := valGet()
+	w.mu.Lock()
+	defer w.mu.Unlock()
+	n := w.next
+	w.next++
+	w.handleMade[n]++
+	return EqHandle(n) // the first one is handle 0
+}
+
+func eqNewFlusher() EqFlusher {
+	w := valGet()
+	w.mu.Lock()
+	w.flMade++
+	w.mu.Unlock()
+	return EqFlusher{} // all fields empty
+}
+
+// RunValueDisposables: every lifetime x {integer handle, zero-valued struct}; resolutions through
+// the provider (root scope), two scopes and a child scope; then everything is closed.
+func RunValueDisposables(c *eng.Ctx, prop string, next func() (int, bool)) {
+	for _, life := range []godi.Lifetime{godi.Singleton, godi.Scoped, godi.Transient} {
+		for _, kind := range []string{"int-handle", "zero-struct"} {
+			idx, mine := next()
+			if !mine {
+				continue
+			}
+			c.R.Begin(idx)
+			w := &valWorld{handleMade: map[int]int{}, handleClosed: map[int]int{}}
+			valMu.Lock()
+			valCur = w
+			valMu.Unlock()
+			viol := func(clause, detail string) {
+				c.R.Violation(eng.Violation{Prop: prop, Clause: clause, Sig: prop + "/" + clause + ":value-typed-disposable:" + kind + ":" + lifeName(life), Case: idx, CaseID: fmt.Sprintf("valdisp-%s-%s", kind, lifeName(life)),
+					Detail: detail, Replay: map[string]any{"fixture": "value-typed-disposables", "kind": kind, "lifetime": lifeName(life)}})
+			}
+			func() {
+				defer func() {
+					if p := recover(); p != nil {
+						viol("panic", fmt.Sprintf("panic: %v", p))
+					}
+				}()
+				coll := godi.NewCollection()
+				var err error
+				if kind == "int-handle" {
+					err = eqAdd(coll, life, eqNewHandle)
+				} else {
+					err = eqAdd(coll, life, eqNewFlusher)
+				}
+				if err != nil {
+					c.R.Inconclusive(idx, "fixture registration refused: "+err.Error())
+					return
+				}
+				prov, err := coll.Build()
+				if err != nil {
+					c.R.Inconclusive(idx, "fixture does not build: "+err.Error())
+					return
+				}
+				resolve := func(p godi.Provider) {
+					for k := 0; k < 3; k++ {
+						if kind == "int-handle" {
+							_, _ = godi.Resolve[EqHandle](p)
+						} else {
+							_, _ = godi.Resolve[EqFlusher](p)
+						}
+					}
+				}
+				resolve(prov)
+				s1, _ := prov.CreateScope(nil)
+				s2, _ := prov.CreateScope(nil)
+				var c1 godi.Scope
+				if s1 != nil {
+					c1, _ = s1.CreateScope(nil)
+				}
+				for _, s := range []godi.Scope{s1, s2, c1} {
+					if s != nil {
+						resolve(s)
+					}
+				}
+				w.mu.Lock()
+				early := w.flClosed
+				for _, n := range w.handleClosed {
+					early += n
+				}
+				w.mu.Unlock()
+				if early > 0 {
+					viol("closed-early", fmt.Sprintf("%d Close events before any Close was called", early))
+				}
+				for _, s := range []godi.Scope{c1, s2, s1} {
+					if s != nil {
+						_ = s.Close()
+					}
+				}
+				_ = prov.Close()
+				w.mu.Lock()
+				defer w.mu.Unlock()
+				if kind == "int-handle" {
+					var never, twice []int
+					for h, made := range w.handleMade {
+						switch n := w.handleClosed[h]; {
+						case n < made:
+							never = append(never, h)
+						case n > made:
+							twice = append(twice, h)
+						}
+					}
+					sort.Ints(never)
+					sort.Ints(twice)
+					if len(never) > 0 {
+						viol("never-closed", fmt.Sprintf("handles %v (of %d created, numbered from 0) were never closed although every scope and the provider were closed", never, len(w.handleMade)))
+					}
+					if len(twice) > 0 {
+						viol("closed-twice", fmt.Sprintf("handles %v were closed more than once", twice))
+					}
+					c.R.Count("value_typed_disposables_created", int64(len(w.handleMade)))
+				} else {
+					if w.flClosed < w.flMade {
+						viol("never-closed", fmt.Sprintf("%d zero-valued struct instances were created, only %d Close events", w.flMade, w.flClosed))
+					}
+					if w.flClosed > w.flMade {
+						viol("closed-twice", fmt.Sprintf("%d zero-valued struct instances were created, %d Close events", w.flMade, w.flClosed))
+					}
+					c.R.Count("value_typed_disposables_created", int64(w.flMade))
+				}
+			}()
+			valMu.Lock()
+			valCur = nil
+			valMu.Unlock()
+			c.R.End(idx, eng.Hash("valdisp", kind, int(life)), true)
+		}
+	}
+}
